@@ -110,7 +110,9 @@ func runCheck(args []string) int {
 	}
 	n, err := fn(c)
 	c.ev.Violations = n
-	if werr := c.writeEvidence(); werr != nil {
+	if prop == "selftest" {
+		// a test of the machinery, not of a property: no evidence file
+	} else if werr := c.writeEvidence(); werr != nil {
 		fmt.Fprintln(os.Stderr, "cannot write evidence:", werr)
 		return 2
 	}
